@@ -45,6 +45,27 @@ def init_pool(rng, nmps=2, nmpo=2, maxD=3):
     return pool
 
 
+def int_overflow_risk(pool, op):
+    """integer storage (int8 ... int64) wraps around silently in NumPy; the model computes with unbounded integers.  A step
+    whose exact result may leave the range of its integer result type ends the history (outside the exact comparison)."""
+    h = op.get('h')
+    if h not in ('add_mps', 'add_mpo', 'mul_mpo', 'apply'):
+        return False
+    try:
+        a, b = pool[op['i']], pool[op['j']]
+        for x, y in zip(a.A, b.A):
+            rt = np.result_type(x.dtype, y.dtype)
+            if rt.kind not in 'iu':
+                continue
+            mx, my = int(np.abs(x.astype(object)).max(initial=0)), int(np.abs(y.astype(object)).max(initial=0))
+            bound = mx + my if h.startswith('add') else mx * my * max(x.shape[0], x.shape[1] if x.ndim == 4 else 1)
+            if bound > np.iinfo(rt).max:
+                return True
+    except Exception:
+        return False
+    return False
+
+
 def same_boundary(a, b):
     return np.array_equal(a.qD[0], b.qD[0]) and np.array_equal(a.qD[-1], b.qD[-1])
 
@@ -195,6 +216,9 @@ def run_history(rng, nsteps, pool=None):
     inexact = False
     for _ in range(nsteps):
         op = choose_op(rng, pool)
+        if int_overflow_risk(pool, op):
+            inexact = True
+            break
         rec = krylov_kernels.KryRecorder()
         snaps = [mpsgen.snapshot(o) for o in pool]
         n_before = len(pool)
